@@ -445,8 +445,9 @@ class Check:
             wall_s=round(time.time() - self.t0, 2),
             violations=reported + (1 if (broken and reported == 0) else 0),
         )
-        os.makedirs(os.path.join(VERIF, 'evidence'), exist_ok=True)
-        evp = os.path.join(VERIF, 'evidence', f'{self.pid}.json')
+        evdir = os.environ.get('VERIF_EVIDENCE_DIR') or os.path.join(VERIF, 'evidence')     # (seed runs against a scratch worktree write elsewhere)
+        os.makedirs(evdir, exist_ok=True)
+        evp = os.path.join(evdir, f'{self.pid}.json')
         with open(evp + f'.tmp{os.getpid()}', 'w') as f:
             json.dump(ev, f, indent=1, default=str)
         os.replace(evp + f'.tmp{os.getpid()}', evp)        # atomic: concurrent runs never leave a half-written file
